@@ -18,7 +18,8 @@ type qIn struct {
 }
 
 type qState struct {
-	P, N string // comma separated task ids, each entry ",<id>"
+	P, N     string // comma separated task ids, each entry ",<id>"
+	Inflight int    // 1 + the task the handler has taken off the queue and not yet committed to (0: none)
 }
 
 func qHas(l string, t int) bool { return strings.Contains(l, fmt.Sprintf(",%d;", t)) }
@@ -40,6 +41,12 @@ var queueModel = porcupine.Model{
 		st := state.(qState)
 		in := input.(qIn)
 		e := fmt.Sprintf(",%d;", in.Task)
+		if st.Inflight == in.Task+1 && (in.Op == "queue" || in.Op == "prio" || in.Op == "asap") {
+			// Between the moment the handler takes a task off the queue and the moment it commits to it (and
+			// wipes all entries of the task), a new request for that task either finds the stale entry and adds
+			// nothing, or adds an entry that the commit wipes: it is served by the execution that follows.
+			return true, st
+		}
 		switch in.Op {
 		case "queue":
 			if !qHas(st.N, in.Task) {
@@ -54,7 +61,18 @@ var queueModel = porcupine.Model{
 		case "schedzero", "cancel":
 			st.P = qDel(st.P, in.Task)
 			st.N = qDel(st.N, in.Task)
+		case "commit":
+			if st.Inflight != in.Task+1 {
+				return false, st
+			}
+			st.Inflight = 0
+			st.P = qDel(st.P, in.Task)
+			st.N = qDel(st.N, in.Task)
 		case "start":
+			if st.Inflight != 0 {
+				return false, st
+			}
+			st.Inflight = in.Task + 1
 			for {
 				h, ok := qHead(st.P)
 				if !ok {
@@ -107,7 +125,7 @@ func checkQueueOrder(s *taskState, p *TaskPlan, rc *simkit.RunCtx) {
 					cancelled[o.Task] = o.Ret
 				}
 			}
-			ops = append(ops, porcupine.Operation{ClientId: id % 8, Input: qIn{o.Op, o.Task, ""}, Call: int64(o.Inv), Return: int64(o.Ret)})
+			ops = append(ops, porcupine.Operation{ClientId: id % 8, Input: qIn{o.Op, o.Task, ""}, Call: 2 * int64(o.Inv), Return: 2 * int64(o.Ret)})
 			id++
 		}
 	}
@@ -161,7 +179,8 @@ func checkQueueOrder(s *taskState, p *TaskPlan, rc *simkit.RunCtx) {
 			}
 		}
 		// (a task is also in its own way: an entry made after its previous commit is dropped while it still executes)
-		ops = append(ops, porcupine.Operation{ClientId: 9, Input: qIn{"start", st.task, busy}, Call: int64(prev), Return: int64(st.commit)})
+		ops = append(ops, porcupine.Operation{ClientId: 9, Input: qIn{"start", st.task, busy}, Call: 2*int64(prev) + 1, Return: 2*int64(st.commit) - 1})
+		ops = append(ops, porcupine.Operation{ClientId: 9, Input: qIn{"commit", st.task, ""}, Call: 2 * int64(st.commit), Return: 2 * int64(st.commit)})
 		prev = st.commit
 	}
 	if len(ops) > 40 {
